@@ -167,3 +167,46 @@ def fDials : List FOp → List Conn
   | _ :: rest => fDials rest
 
 end Election
+
+/-! ## `node_session_ready` events (round 4)
+
+`ROp.readyA a`: node A's `NodeServer` handles `ConnectionReady(a)` (node.rs): the subscribers get
+`node_session_ready` iff `is_elected(a)` — the session is authenticated, still there, and elected
+among the authenticated sessions of the peer. The event is appended to node A's log; the world is
+not changed. All other ops are those of `fStep` (late dials, election steps, failing ends). -/
+
+namespace Election
+
+inductive ROp
+  | f (op : FOp)
+  | readyA (a : Nat)
+  | readyB (b : Nat)
+  deriving Repr, DecidableEq
+
+structure RState where
+  w : List Link := []
+  logA : List Nat := []
+  logB : List Nat := []
+  deriving Repr
+
+def rStep (o : Ordering) (s : RState) : ROp → RState
+  | .f op => { s with w := fStep o s.w op }
+  | .readyA a =>
+    if s.w.any (fun l => l.c.idA == a && l.authA && l.openA) && (electA o (activeA s.w)).contains a
+    then { s with logA := s.logA ++ [a] } else s
+  | .readyB b =>
+    if s.w.any (fun l => l.c.idB == b && l.authB && l.openB) && (electB o (activeB s.w)).contains b
+    then { s with logB := s.logB ++ [b] } else s
+
+def rRun (o : Ordering) (ops : List ROp) : RState := ops.foldl (rStep o) {}
+
+def rProj : List ROp → List FOp
+  | [] => []
+  | .f op :: rest => op :: rProj rest
+  | _ :: rest => rProj rest
+
+/-- sessions reported ready on A / B that are still open there -/
+def liveReadyA (s : RState) : List Nat := s.logA.filter (fun a => s.w.any (fun l => l.c.idA == a && l.openA))
+def liveReadyB (s : RState) : List Nat := s.logB.filter (fun b => s.w.any (fun l => l.c.idB == b && l.openB))
+
+end Election
